@@ -14,7 +14,7 @@ INTERESTING = [b"\x00", b"\x01", b"\x7f", b"\x80", b"\x81", b"\xff", b"\x81\xff"
 
 
 def mutate(rng, x, pool, n):
-    out = []
+    out = [("identity", x)]        # the seed itself: foreign but valid forms (decimal REALs, unknown additions ...) as they are
     L = len(x)
     # truncations: every offset for short inputs, sampled for long ones
     offs = list(range(0, L)) if L <= 48 else sorted(set([0, 1, 2, L - 1, L - 2] + [rng.randrange(L) for _ in range(24)]))
